@@ -198,13 +198,15 @@ func (c *Ctx) Finish() {
 	viols := c.violations
 	c.mu.Unlock()
 
-	os.MkdirAll(filepath.Join(c.Root, "evidence", "replay"), 0o755)
+	// VERIF_EVIDENCE: evidence of a run against another tree than /repo (seeded change) goes elsewhere
+	evDir := Getenv("VERIF_EVIDENCE", filepath.Join(c.Root, "evidence"))
+	os.MkdirAll(filepath.Join(evDir, "replay"), 0o755)
 	b, _ := json.MarshalIndent(ev, "", " ")
-	tmp := filepath.Join(c.Root, "evidence", c.ID+".json.tmp")
+	tmp := filepath.Join(evDir, c.ID+".json.tmp")
 	if err := os.WriteFile(tmp, append(b, '\n'), 0o644); err != nil {
 		c.Infra("write evidence: %v", err)
 	}
-	os.Rename(tmp, filepath.Join(c.Root, "evidence", c.ID+".json"))
+	os.Rename(tmp, filepath.Join(evDir, c.ID+".json"))
 
 	for _, k := range known {
 		fmt.Printf("KNOWN-FINDING: property=%s %s\n", c.ID, k)
@@ -215,7 +217,7 @@ func (c *Ctx) Finish() {
 			"assertion": v.Assertion, "fields": v.Fields, "detail": v.Detail,
 			"how_to_run": fmt.Sprintf("bin/check %s --replay <this file>", c.ID)}, "", " ")
 		h := sha256.Sum256(rb)
-		p := filepath.Join(c.Root, "evidence", "replay", c.ID+"-"+hex.EncodeToString(h[:5])+".json")
+		p := filepath.Join(evDir, "replay", c.ID+"-"+hex.EncodeToString(h[:5])+".json")
 		os.WriteFile(p, rb, 0o644)
 		if len(seen) < 20 && !seen[p] {
 			fmt.Printf("VIOLATION property=%s replay=%s\n", c.ID, p)
@@ -254,7 +256,22 @@ func (c *Ctx) BuildLFS() string {
 // BuildDriver builds the library driver (imports /repo packages via replace).
 func (c *Ctx) BuildDriver() string {
 	out := filepath.Join(c.Bin, "lfsdrv")
-	cmd := exec.Command("go", "build", "-tags", "verif", "-o", out, "./cmd/lfsdrv")
+	args := []string{"build", "-tags", "verif", "-o", out}
+	if c.Repo != "/repo" {
+		// another tree than /repo (a scratch worktree carrying a seeded change): same module file,
+		// the replace directive pointed at that tree
+		mod, err := os.ReadFile(filepath.Join(c.Root, "harness", "go.mod"))
+		if err != nil {
+			c.Infra("read go.mod: %v", err)
+		}
+		alt := filepath.Join(c.Work, "alt.mod")
+		os.WriteFile(alt, []byte(strings.Replace(string(mod), "=> /repo", "=> "+c.Repo, 1)), 0o644)
+		if sum, err := os.ReadFile(filepath.Join(c.Root, "harness", "go.sum")); err == nil {
+			os.WriteFile(filepath.Join(c.Work, "alt.sum"), sum, 0o644)
+		}
+		args = append(args, "-modfile="+alt)
+	}
+	cmd := exec.Command("go", append(args, "./cmd/lfsdrv")...)
 	cmd.Dir = filepath.Join(c.Root, "harness")
 	cmd.Env = goEnv()
 	if b, err := cmd.CombinedOutput(); err != nil {
